@@ -253,6 +253,16 @@ def gen_task(g, name, data, allow_errors=True, in_map=False, fn=None, handlers=T
     fn = fn or ("f_" + name)
     s = {"Type": "Task", "Resource": "arn:aws:rpcmessage:local::function:" + fn}
     add_filters(g, s, data, in_map=in_map)
+    if g.cfg.get("long_form", True) and d(st.integers(0, 6)) == 0:
+        # the long-form invocation: Resource = ...:rpcmessage:invoke, Parameters = {FunctionName, Payload}
+        payload = s.pop("Parameters", None)
+        s["Resource"] = "arn:aws:states:local::rpcmessage:invoke"
+        s["Parameters"] = {"FunctionName": "arn:aws:rpcmessage:local::function:" + fn}
+        if payload is not None:
+            s["Parameters"]["Payload"] = payload
+        else:
+            s["Parameters"]["Payload.$"] = "$"
+        g.feature("task-long-form-invoke")
     kind = d(st.sampled_from(["echo", "echo", "value", "value", "error", "error", "retry-ok"])) if allow_errors and g.cfg.get("task_errors", True) \
         else d(st.sampled_from(["echo", "value"]))
     errname = d(st.sampled_from(["ErrA", "ErrB", "Custom.Error", "States.TaskFailed"]))
